@@ -3,10 +3,10 @@
 verdict of the property's check on them (scratch overlay; /repo untouched)."""
 import json, os, re, shutil, subprocess, sys
 VERIF = os.path.dirname(os.path.dirname(os.path.abspath(__file__)))
-roots = [r for r in (os.environ.get("BENIGNROOT", "/tmp/benign"), "/tmp/benign2", "/tmp/benign3", "/tmp/benign4") if os.path.isdir(r)]
+roots = [r for r in (sys.argv[1:] or ["/tmp/benign5"]) if os.path.isdir(r)]  # one round at a time: earlier rounds are committed
 rows = []
 for ROOT in dict.fromkeys(roots):
-    tag = {"/tmp/benign": "", "/tmp/benign2": "b", "/tmp/benign3": "c", "/tmp/benign4": "d"}.get(ROOT, "")
+    tag = {"/tmp/benign": "", "/tmp/benign2": "b", "/tmp/benign3": "c", "/tmp/benign4": "d", "/tmp/benign5": "e"}.get(ROOT, "")
     for pid in sorted(os.listdir(ROOT)):
         out = os.path.join(ROOT, pid, "out")
         if not os.path.isdir(out):
